@@ -346,5 +346,8 @@ pub fn write<const N: usize, Ns>(mappings: &Mappings<N, Ns>, w: &mut impl Write)
 		}
 	}
 
+	// flush explicitly: dropping the `BufWriter` would discard any error of the final write
+	w.flush()?;
+
 	Ok(())
 }
